@@ -20,10 +20,11 @@ def shapes(level):
 
 
 INPUT_TYPES_SDL = """
-enum Color { RED GREEN BLUE }
-scalar Tag
-input P { a: Int b: String = "x" c: [Int!] }
-input Q { r: Int! p: P d: Int! = 7 l: [String!]! = ["id"] }
+directive @mk on SCALAR | ENUM | ENUM_VALUE | INPUT_OBJECT | INPUT_FIELD_DEFINITION | ARGUMENT_DEFINITION
+enum Color @mk { RED GREEN @mk BLUE }
+scalar Tag @mk
+input P @mk { a: Int @mk b: String = "x" c: [Int!] @mk }
+input Q { r: Int! @mk p: P d: Int! = 7 @mk l: [String!]! = ["id"] }
 input R { r: R x: Int = 1 }
 """
 
